@@ -13,7 +13,8 @@ File modification times come from a counter the harness owns (os.utime): every e
 Events (9): toggle python constant | toggle parameter table (extra parameter) | toggle the DEFAULT of a
 parameter that is never passed explicitly (Python-only edit, identical generated C) | toggle constant in the
 included C file | toggle an edit of kernel_iq.c | toggle a macro in kernel_header.c | toggle requested
-precision (cycle double -> single -> quad) | load+evaluate in the long-running process | load+evaluate in a fresh process.
+precision (cycle double -> single -> quad) | load+evaluate a second plug-in with the SAME file name in another
+directory (never edited, newer than any edit) | load+evaluate in the long-running process | load+evaluate in a fresh process.
 Toggling twice restores the earlier text with a newer mtime ("revert").
 
 Oracle: the plug-in computes Iq = a*K_py*k_c()*VERIF_HDR*extra*(1+q), so the expected value is a closed
@@ -39,7 +40,7 @@ LEVEL = "model_checking"
 ENGINE = "E2"
 TECHNIQUE = ("explicit enumeration of all edit/load histories up to a depth on the real implementation; "
              "the long-running process is forked at every node so in-process caches follow the history exactly")
-RULE = ("all sequences over the 9-event alphabet up to the depth bound, in two clock regimes (edits stamped before / "
+RULE = ("all sequences over the 10-event alphabet up to the depth bound, in two clock regimes (edits stamped before / "
         "after the wall clock), no de-duplication; every load event is "
         "judged against the closed form of the current texts; non-trivial = history has an edit between two loads")
 ASSUMPTIONS = [
@@ -47,11 +48,11 @@ ASSUMPTIONS = [
     "the C compiler is environment: real cc once per distinct source, memoised afterwards",
     "edits are drawn from the 6 toggles listed in the module docstring; POSIX; DLL driver only",
 ]
-BOUNDS = {"quick": {"depth": {"past": 4, "future": 3}, "events": 9},
-          "thorough": {"depth": {"past": 5, "future": 5}, "events": 9}}
+BOUNDS = {"quick": {"depth": {"past": 4, "future": 3}, "events": 10},
+          "thorough": {"depth": {"past": 5, "future": 4}, "events": 10}}
 CASE_TIMEOUT = 1800
 
-EVENTS = ["py", "tab", "dflt", "c", "tpl", "hdr", "dtype", "loadL", "loadF"]
+EVENTS = ["py", "tab", "dflt", "c", "tpl", "hdr", "dtype", "loadL", "loadF", "loadO"]
 Q = [0.1, 0.5]
 A = 1.5
 K_PY = (2.0, 7.0)
@@ -61,6 +62,7 @@ B_DEFAULT = (1.0, 2.5)  # default of parameter b (never passed explicitly): a Py
 DTYPES = [("double", "float64", 1e-12), ("single", "float32", 2e-6), ("quad", "float128", 1e-12)]
 CLOCKS = {"past": 1500000000, "future": 2200000000}   # edits stamped before / after the wall clock
 EXTRA = 4.0          # default of the optional extra parameter
+OTHER_PY, OTHER_C = 13.0, 17.0    # constants of the second, never edited plug-in with the SAME file name elsewhere
 TPL_OLD = "            result[q_index] += weight * F2;"
 TPL_NEW = "            result[q_index] += 2.0 * weight * F2;"
 
@@ -106,6 +108,13 @@ class Tree(object):
                         ignore=shutil.ignore_patterns("__pycache__", "*.pyc", "*.so"))
         os.makedirs(self.plug)
         os.makedirs(self.cache)
+        # a second plug-in with the same base name (pm.py + pm_lib.c) in another directory, never edited
+        self.other = os.path.join(self.root, "elsewhere")
+        os.makedirs(self.other)
+        with open(os.path.join(self.other, "pm.py"), "w") as fh:
+            fh.write(PLUGIN % {"extra": "", "kpy": OTHER_PY, "extra_use": "", "bdef": 1.0})
+        with open(os.path.join(self.other, "pm_lib.c"), "w") as fh:
+            fh.write(LIB % OTHER_C)
         with open(self.files["tpl"]) as fh:
             self.base["tpl"] = fh.read()
         with open(self.files["hdr"]) as fh:
@@ -144,6 +153,10 @@ class Tree(object):
         self.clock = CLOCKS[regime]
         for w in ("py", "c", "tpl", "hdr"):
             self.write(w)
+        # the other plug-in is newer than any edit this history can make (but in the same clock regime)
+        for f in ("pm.py", "pm_lib.c"):
+            ns = int(self.clock + 5000) * 1000000000
+            os.utime(os.path.join(self.other, f), ns=(ns, ns))
         for f in os.listdir(self.cache):
             os.remove(os.path.join(self.cache, f))
 
@@ -178,6 +191,11 @@ class Tree(object):
             self.write(ev)
         # dtype: nothing on disk
 
+    def expected_other(self):
+        b = self.bits
+        k = A * 1.0 * OTHER_PY * OTHER_C * K_HDR[b["hdr"]] * (2.0 if b["tpl"] else 1.0)
+        return [k * (1.0 + q) for q in Q], ["a", "b"]
+
     def expected(self):
         b = self.bits
         k = (A * B_DEFAULT[b["dflt"]] * K_PY[b["py"]] * K_C[b["c"]] * K_HDR[b["hdr"]] * (EXTRA if b["tab"] else 1.0)
@@ -189,20 +207,21 @@ class Tree(object):
         return "py%d tab%d c%d tpl%d hdr%d" % (b["py"], b["tab"], b["c"], b["tpl"], b["hdr"])   # (dflt: same C)
 
 
-def _evaluate(tree):
+def _evaluate(tree, other=False):
     """load + evaluate in THIS process (whatever caches it has)"""
     from sasmodels import core
     from sasmodels.direct_model import call_kernel
     dtype = DTYPES[tree.bits["dtype"]][0]
-    model = core.load_model(tree.files["py"], dtype=dtype, platform="dll")
+    path = os.path.join(tree.other, "pm.py") if other else tree.files["py"]
+    model = core.load_model(path, dtype=dtype, platform="dll")
     kernel = model.make_kernel([np.array(Q)])
     vals = call_kernel(kernel, {"a": A, "scale": 1.0, "background": 0.0})
     return {"values": [float(v) for v in vals], "lib": os.path.basename(model.dllpath),
             "pars": [p.name for p in model.info.parameters.kernel_parameters], "dtype": str(model.dtype)}
 
 
-def _judge(tree, got, how, hist, agg):
-    exp, pars = tree.expected()
+def _judge(tree, got, how, hist, agg, other=False):
+    exp, pars = tree.expected_other() if other else tree.expected()
     dname, want_dtype, tol = DTYPES[tree.bits["dtype"]]
     agg["loads"] += 1
     problems = []
@@ -216,7 +235,7 @@ def _judge(tree, got, how, hist, agg):
             problems.append(("stale-table", "model reports parameters %r, current table is %r" % (got["pars"], pars)))
         if got["dtype"] != want_dtype:
             problems.append(("wrong-precision", "model precision %s, requested %s" % (got["dtype"], want_dtype)))
-        me = tree.key() + " " + dname
+        me = (("other plug-in hdr%d tpl%d" % (tree.bits["hdr"], tree.bits["tpl"])) if other else tree.key()) + " " + dname
         owner = agg["libs"].setdefault(got["lib"], me)
         if owner != me:
             problems.append(("shared-library", "cached library %s used for [%s] and for [%s]" % (got["lib"], owner, me)))
@@ -268,6 +287,12 @@ def _apply(tree, ev, hist, agg, zsock):
     elif ev == "loadF":
         got = _fresh_eval(tree, zsock)
         _judge(tree, got, "fresh-process", hist, agg)
+    elif ev == "loadO":
+        try:
+            got = _evaluate(tree, other=True)
+        except Exception as exc:  # noqa
+            got = {"error": "%r\n%s" % (exc, traceback.format_exc()[-800:])}
+        _judge(tree, got, "same-process-other-file", hist, agg, other=True)
     else:
         tree.toggle(ev)
 
